@@ -211,6 +211,12 @@ class FilReader(Filterbank):
         if lastread < skipback:
             nreads -= 1
             lastread = nsamps - (nreads * (gulp - skipback))
+            if lastread < skipback:
+                msg = (
+                    f"skipback ({skipback}) is too large for readsamps ({gulp}): "
+                    f"the last block would have {lastread} samples"
+                )
+                raise ValueError(msg)
         blocks = [
             (ii, gulp * self.header.nchans, -skipback * self.header.nchans)
             for ii in range(nreads)
